@@ -61,6 +61,7 @@ PLAN = {
         part("api", "TestC19Mutations", (1, 1), (1, 1)),
         part("api", "TestC19Random", (6000, 100000), (4, 16)),
         part("cli", "TestC19CLI", (1, 1), (8, 16)),
+        part("cli", "TestC19Rehash", (1, 1), (8, 16)),
     ] + [fuzzpart("api", t, "25s") for t in (
         "FuzzC19ObjectContent", "FuzzC19Object", "FuzzC19Tree", "FuzzC19Commit", "FuzzC19Index", "FuzzC19Head",
         "FuzzC19Branch", "FuzzC19Config", "FuzzC19Reflog", "FuzzC19Hash", "FuzzC19NullStr")],
@@ -127,7 +128,10 @@ RULES = {
     "C19": "Mutations: for each valid file (blob, trees, commit with parent, index with 4 entries, HEAD, branch, config, "
            "reflog with 4 records) every truncation and, at every (quick: every 3rd) position, deletion and 6 substitutions; "
            "objects at compressed and content level; all ordered pairs of swapped object files. Random: arbitrary bytes, "
-           "hostile constants, splices of valid files, line garbage, compressed garbage. Non-trivial = the loader got "
+           "hostile constants, splices of valid files, line garbage, compressed garbage; a reflog of arbitrary lines (one up to "
+           "3 MiB) followed by genuine records, whose positions must not move. Rehash: the content of every commit and tree "
+           "of a small history damaged (line deleted / repeated, truncated, bytes replaced), stored under its own new id and "
+           "re-referenced bottom-up, then 20 reading and modifying commands. Non-trivial = the loader got "
            "past its first validation step (decoded >= 1 entry/header); distinct by (loader, input bytes).",
     "C20": "Scenario machine (profile config). Non-trivial = >= 2 keys in >= 2 sections written, or a special value, "
            "or a local/global override exercised, or the unset-identity refusal; distinct by write sequence.",
